@@ -38,29 +38,29 @@ def plan(tier, seed):
         for impl in ('c', 'py'):
             specs.append(dict(label='between-%s-%s' % (fam, impl), family=fam,
                               impl=impl, mode='between',
-                              histories=3 if q else 30, seed=seed, tier=tier,
-                              variant='mon', timeout=900 if q else 3000))
+                              histories=3 if q else 200, seed=seed, tier=tier,
+                              variant='mon', timeout=900 if q else 7200))
     for fam in OBJ_FAMS:
         specs.append(dict(label='incall-%s-c' % fam, family=fam, impl='c',
-                          mode='in-call', histories=10 if q else 100,
+                          mode='in-call', histories=10 if q else 400,
                           seed=seed, tier=tier, variant='mon',
-                          timeout=900 if q else 3000))
+                          timeout=900 if q else 7200))
     specs.append(dict(label='incall-OO-py', family='OO', impl='py',
                       mode='in-call', histories=12 if q else 60, seed=seed,
-                      tier=tier, variant='mon', timeout=900))
+                      tier=tier, variant='mon', timeout=3000))
     if not q:
         for fam in OBJ_FAMS[1:]:
             specs.append(dict(label='incall-%s-py' % fam, family=fam,
                               impl='py', mode='in-call', histories=30,
                               seed=seed, tier=tier, variant='mon',
-                              timeout=1500))
+                              timeout=3000))
     # the memory half: a node used without being pinned has its arrays freed
     # under the comparison -> use-after-free under ASan
     for fam in (['OO', 'OI'] if q else OBJ_FAMS):
         specs.append(dict(label='incall-%s-c-asan' % fam, family=fam,
                           impl='c', mode='in-call',
                           histories=4 if q else 40, seed=seed + 7, tier=tier,
-                          variant='asan', timeout=1500 if q else 3000))
+                          variant='asan', timeout=1500 if q else 7200))
     return specs
 
 
